@@ -9,7 +9,7 @@ from checks.c12 import gen_tree
 PID = "C17"
 VALID = [refvisit.CONTINUE, refvisit.SKIP, refvisit.POP, refvisit.STOP]
 # invalid codes: small ones and ones that coincide with a valid code in their low 16 bits / after sign or byte truncation
-ALIASES = [c + k * 65536 for c in VALID for k in (1, -1, 3)] + [c | 0x40000000 for c in VALID] + [-c for c in VALID if c] + [c + 256 for c in VALID] + [0xFFFF, 0x10000 - 1 + 0x10000, -65537]
+ALIASES = [c + k * 65536 for c in VALID for k in (1, -1, 2, 3, 4, -2, 0x7FFF, 256)] + [c + (1 << b) for c in VALID for b in (8, 15, 20, 24, 30)] + [c | 0x40000000 for c in VALID] + [-c for c in VALID if c] + [c + 256 for c in VALID] + [0xFFFF, 0x10000 - 1 + 0x10000, -65537]
 CODES = [refvisit.CONTINUE] * 7 + [refvisit.SKIP, refvisit.POP, refvisit.STOP, refvisit.ERROR, 1, -2, 12345] + [None]
 
 
